@@ -128,6 +128,19 @@ func (ex *Exec) callFunc(fr *Frame, fn *ssa.Function, args []Val, bind []Val, st
 	}
 	ct := ex.P.contractFor(fn)
 	if ct != nil && !ct.Inline && !(fr.root && fn == fr.fn) {
+		// a closure under contract: its captured variables are visible to the contract by name
+		ex.closureBind = nil
+		if len(fn.FreeVars) > 0 && len(bind) == len(fn.FreeVars) {
+			ex.closureBind = map[string]specBinding{}
+			for i, fv := range fn.FreeVars {
+				if c, ok := bind[i].(*Term); ok {
+					if pt, ok := fv.Type().(*types.Pointer); ok {
+						ex.closureBind[fv.Name()] = specBinding{typ: pt.Elem(), cell: c}
+					}
+				}
+			}
+		}
+		defer func() { ex.closureBind = nil }()
 		return ex.applyContract(fr, ex.P.relName(fn), sig, ct, args, st, pc, pos)
 	}
 	if ex.canInline(fn, fr) {
@@ -348,7 +361,7 @@ func (ex *Exec) bindParams(ct *Contract, sig *types.Signature, args []Val, env *
 	i := 0
 	if sig.Recv() != nil {
 		if ct.RecvName != "" {
-			env.vars[ct.RecvName] = specBinding{args[0], sig.Recv().Type()}
+			env.vars[ct.RecvName] = specBinding{val: args[0], typ: sig.Recv().Type()}
 		}
 		i = 1
 	}
@@ -357,7 +370,7 @@ func (ex *Exec) bindParams(ct *Contract, sig *types.Signature, args []Val, env *
 		specFail("contract %s: %d parameters named, function has %d", ct.Key, len(ct.Params), ps.Len())
 	}
 	for k := 0; k < ps.Len(); k++ {
-		env.vars[ct.Params[k]] = specBinding{args[i+k], ps.At(k).Type()}
+		env.vars[ct.Params[k]] = specBinding{val: args[i+k], typ: ps.At(k).Type()}
 	}
 }
 
@@ -367,10 +380,10 @@ func (ex *Exec) bindResults(ct *Contract, sig *types.Signature, rets []Val, env 
 		specFail("contract %s: %d results named, function has %d", ct.Key, len(ct.Results), rs.Len())
 	}
 	for k := 0; k < rs.Len() && k < len(ct.Results); k++ {
-		env.vars[ct.Results[k]] = specBinding{rets[k], rs.At(k).Type()}
+		env.vars[ct.Results[k]] = specBinding{val: rets[k], typ: rs.At(k).Type()}
 	}
 	if rs.Len() == 1 {
-		env.vars["result"] = specBinding{rets[0], rs.At(0).Type()}
+		env.vars["result"] = specBinding{val: rets[0], typ: rs.At(0).Type()}
 	}
 }
 
@@ -398,6 +411,12 @@ func (ex *Exec) applyContract(fr *Frame, name string, sig *types.Signature, ct *
 			}
 		}()
 		ex.bindParams(ct, sig, args, env)
+		for n, b := range ex.closureBind {
+			if _, shadow := env.vars[n]; !shadow {
+				env.vars[n] = b
+			}
+		}
+		ex.closureBind = nil
 		// preconditions
 		for _, cl := range ct.Clauses {
 			if cl.Kind != "requires" || cl.Expr == nil {
